@@ -651,6 +651,15 @@ def parse_merchants(content: str, match_mode: str = 'first_match') -> MerchantEn
 # CSV Conversion (Backwards Compatibility)
 # =============================================================================
 
+def _regex_call(pattern: str) -> str:
+    """Render regex("<pattern>") so that the string literal denotes exactly `pattern`.
+
+    The expression parser reads the argument as a Python string literal, so a raw
+    regex such as \\bUBER\\b, (\\w)\\1, a doubled backslash or a double quote must be escaped.
+    """
+    return 'regex("' + pattern.replace('\\', '\\\\').replace('"', '\\"') + '")'
+
+
 def _modifier_to_expr(parsed_pattern) -> str:
     """Convert parsed CSV modifiers to expression string."""
     conditions = []
@@ -717,9 +726,8 @@ def csv_rule_to_merchant_rule(
 
     # Regex pattern match
     if pattern:
-        # Escape any special characters in the pattern for the match expression
-        # We use regex() function for the pattern
-        parts.append(f'regex("{pattern}")')
+        # We use regex() function for the pattern (escaped as a string literal)
+        parts.append(_regex_call(pattern))
 
     # Add modifier conditions
     modifier_expr = _modifier_to_expr(parsed_pattern)
@@ -821,8 +829,8 @@ def csv_to_merchants_content(csv_rules: List[Tuple]) -> str:
         # Build match expression
         parts = []
         if pattern:
-            # Pattern is already properly escaped for regex use, write as-is
-            parts.append(f'regex("{pattern}")')
+            # Pattern is a regex; escape it as a string literal of the rule language
+            parts.append(_regex_call(pattern))
 
         modifier_expr = _modifier_to_expr(parsed) if parsed else ""
         if modifier_expr and not modifier_expr.startswith("#"):
